@@ -30,11 +30,18 @@ Inductive criterion : Type := CGas | CSize | CLength.
 (* DUPk / SWAPk exist for k in range(1, min(bs, 17)) *)
 Definition kmax (bs : nat) : nat := Nat.min bs 17 - 1.
 
-Definition enc_instrs (S : spec) : list step :=
-  map (fun u => SIns (ui_id u)) (s_instrs S)
-  ++ [SNop; SPop]
+Definition user_steps (S : spec) : list step := map (fun u => SIns (ui_id u)) (s_instrs S).
+
+Definition basic_steps (S : spec) : list step :=
+  [SNop; SPop]
   ++ map SDup (seq 1 (kmax (s_max_sk S)))
   ++ map SSwap (seq 1 (kmax (s_max_sk S))).
+
+(* theta order: the user instructions are created first (FullEncoding._initialize_from_sms) *)
+Definition enc_instrs (S : spec) : list step := user_steps S ++ basic_steps S.
+
+(* FullEncoding._instructions = [*basic, *uninterpreted]: the iteration order of the weight dicts *)
+Definition dict_instrs (S : spec) : list step := basic_steps S ++ user_steps S.
 
 Definition instr_field (S : spec) (f : uinstr -> Z) (id : nat) : Z :=
   match find_instr S id with Some u => f u | None => 0%Z end.
@@ -81,9 +88,9 @@ Definition weight (c : criterion) (S : spec) (st : step) : Z :=
   | CLength => len_of st
   end.
 
-(* weight_dict: non-store instructions in theta order *)
+(* weight_dict: non-store instructions in the order of FullEncoding._instructions *)
 Definition wdict (c : criterion) (S : spec) : list (step * Z) :=
-  map (fun st => (st, weight c S st)) (filter (fun st => negb (is_store S st)) (enc_instrs S)).
+  map (fun st => (st, weight c S st)) (filter (fun st => negb (is_store S st)) (dict_instrs S)).
 
 Definition bounds_t : Type := step -> nat * nat.
 
@@ -182,18 +189,17 @@ Definition table_bounds (S : spec) (tbl : list (nat * (nat * nat))) : bounds_t :
 (* the model-independent constant of soft_prices: every store occurs exactly once, is never in a
    weight dictionary, and therefore violates every grouped constraint of its position (total
    = largest weight - smallest weight) and no direct constraint *)
-Definition stores_of (S : spec) : list step :=
-  filter (is_store S) (map (fun u => SIns (ui_id u)) (s_instrs S)).
+Definition stores_of (S : spec) : list step := filter (is_store S) (user_steps S).
 
-Definition top_level (wd : list (step * Z)) : Z :=
-  match levels wd with
-  | [] => 0%Z
-  | c0 :: cs => (last cs c0 - c0)%Z
-  end.
+Definition first_level (wd : list (step * Z)) : Z := hd 0%Z (levels wd).
+Definition last_level (wd : list (step * Z)) : Z := last (levels wd) 0%Z.
 
+(* grouped: a store violates every constraint of its position (last_level - first_level in total),
+   any other instruction pays weight - first_level (first_level is 0: the weight of NOP) *)
 Definition soft_const (c : criterion) (direct : bool) (S : spec) : Z :=
   if direct then (- sumZ (map (cost1 c S) (stores_of S)))%Z
-  else sumZ (map (fun st => (top_level (wdict c S) - cost1 c S st)%Z) (stores_of S)).
+  else (sumZ (map (fun st => (last_level (wdict c S) - cost1 c S st)%Z) (stores_of S))
+        - Z.of_nat (s_init_len S) * first_level (wdict c S))%Z.
 
 (* the priced cost: like [cost] but with the encoding's weights (differs from [cost] only for
    the size criterion, where weights are capped at 5) *)
@@ -207,7 +213,7 @@ Definition alphabet (S : spec) (sk : nat) : list step :=
   [SPop]
   ++ map SDup (seq 1 (Nat.min (sk - 1) 16))
   ++ map SSwap (seq 1 (Nat.min (sk - 1) 16))
-  ++ map (fun u => SIns (ui_id u)) (s_instrs S).
+  ++ user_steps S.
 
 (* all sequences over [alpha] of length <= fuel that execute without error from [stk], never
    exceed the height [sk], and end in the stack [tgt] *)
@@ -270,3 +276,60 @@ Definition soft_out (S : spec) (l : list softc) : list (Z * nat * bool * list na
 
 Definition wdict_out (c : criterion) (S : spec) : list (nat * Z) :=
   map (fun p => (theta_of S (fst p), snd p)) (wdict c S).
+
+(* the three optima with one enumeration (for the per-instance check) *)
+Definition opt3 (S : spec) (L sk : nat)
+  : option (Z * list step) * option (Z * list step) * option (Z * list step) * nat :=
+  let e := enum S L sk in
+  (argmin (cost CGas S) e, argmin (cost CSize S) e, argmin (cost CLength S) e, List.length e).
+
+Definition cost3 (S : spec) (q : list step) : Z * Z * Z :=
+  (cost CGas S q, cost CSize S q, cost CLength S q).
+
+(* ------------------------------------------------------------------------------------------ *)
+(* D. decidable side conditions of the pricing theorems (Model/SoftProofs.v); the harness
+      evaluates them on every instance (they hold whenever ids are unique and costs are >= 0)   *)
+
+Definition memZ (z : Z) (l : list Z) : bool := existsb (Z.eqb z) l.
+
+Fixpoint strict_incr (l : list Z) : bool :=
+  match l with
+  | a :: r => match r with b :: _ => (a <? b)%Z && strict_incr r | [] => true end
+  | [] => true
+  end.
+
+Fixpoint nodupb_step (l : list step) : bool :=
+  match l with
+  | [] => true
+  | a :: r => negb (mem_step a r) && nodupb_step r
+  end.
+
+Definition direct_side (c : criterion) (S : spec) : bool :=
+  nodupb_step (dict_instrs S) && forallb (fun p => (0 <=? snd p)%Z) (wdict c S).
+
+Definition grouped_side (c : criterion) (S : spec) (bnd : bounds_t) : bool :=
+  let wd := wdict c S in
+  nodupb_step (dict_instrs S)
+  && strict_incr (levels wd)
+  && forallb (fun p => memZ (snd p) (levels wd)) wd
+  && forallb (fun c' => forallb (fun j => match filter (in_win bnd j) (cheaper wd c') with
+                                          | [] => false | _ => true end) (seq 0 (s_init_len S)))
+             (tl (levels wd))
+  && forallb (fun p => forallb (fun c' => Bool.eqb (mem_step (fst p) (cheaper wd c')) (snd p <? c')%Z)
+                               (levels wd)) wd
+  && forallb (fun st => forallb (fun c' => negb (mem_step st (cheaper wd c'))) (levels wd)) (stores_of S).
+
+(* every store of the specification occurs exactly once (a consequence of [realizes]) *)
+Definition stores_once (S : spec) (q : list step) : bool :=
+  forallb (fun st => length (filter (step_eqb st) q) =? 1) (stores_of S).
+
+Definition pad (n : nat) (q : list step) : list step := q ++ repeat SNop (n - length q).
+
+(* per-instance form of soft_prices, evaluated by the harness on every enumerated program that
+   lies inside the windows *)
+Definition prices_all (c : criterion) (direct : bool) (S : spec) (bnd : bounds_t) (L sk : nat) : nat * nat :=
+  let softs := soft c direct S bnd in
+  let k := soft_const c direct S in
+  let progs := filter (in_domain S bnd) (map (pad (s_init_len S)) (enum S L sk)) in
+  (length progs,
+   length (filter (fun q => (penalty softs q =? wcost c S q + k)%Z) progs)).
